@@ -127,19 +127,31 @@ class LinesearchSolver(NonlinearSolver):
                 if not np.isscalar(ref):
                     ref = ref.ravel()
 
-                if var_lower is not None:
+                if var_lower is None:
+                    var_lower = -np.inf
+                elif not np.isscalar(var_lower):
+                    var_lower = var_lower.ravel()
+                if var_upper is None:
+                    var_upper = np.inf
+                elif not np.isscalar(var_upper):
+                    var_upper = var_upper.ravel()
+
+                # Where ref < ref0 the scaling reverses the order, so the scaled lower bound is
+                # the image of the upper bound (and a missing bound maps to the other infinity).
+                scaled_lower = (var_lower - ref0) / (ref - ref0)
+                scaled_upper = (var_upper - ref0) / (ref - ref0)
+                scaled_lower, scaled_upper = (np.minimum(scaled_lower, scaled_upper),
+                                              np.maximum(scaled_lower, scaled_upper))
+
+                if np.any(scaled_lower != -np.inf):
                     if self._lower_bounds is None:
                         self._lower_bounds = np.full(len(system._outputs), -np.inf)
-                    if not np.isscalar(var_lower):
-                        var_lower = var_lower.ravel()
-                    self._lower_bounds[start:end] = (var_lower - ref0) / (ref - ref0)
+                    self._lower_bounds[start:end] = scaled_lower
 
-                if var_upper is not None:
+                if np.any(scaled_upper != np.inf):
                     if self._upper_bounds is None:
                         self._upper_bounds = np.full(len(system._outputs), np.inf)
-                    if not np.isscalar(var_upper):
-                        var_upper = var_upper.ravel()
-                    self._upper_bounds[start:end] = (var_upper - ref0) / (ref - ref0)
+                    self._upper_bounds[start:end] = scaled_upper
 
                 start = end
         else:
